@@ -442,6 +442,7 @@ def to_docstring(
         )
         name, _param = param
         del param
+        _param = dict(_param)  # nothing written below may leak into the IR shared with other emitters
         if "doc" in _param:
             doc, default = extract_default(
                 _param["doc"], emit_default_doc=emit_default_doc
